@@ -264,10 +264,16 @@ class SimConsole:
             s["method"] = c["method"]
         elif c["method"] == "change":
             s["method"] = "percent" if s["method"] == "temperature" else "temperature"
+        # a console that is told to set a value of one kind controls the zone by that kind from then on
+        # (assumption of the environment model; AT4 clients say so explicitly, AT5 clients leave it to the console)
         if c["setting"] == "percent":
             s["percent"] = c["value"]
+            if c["method"] == at4.KEEP:
+                s["method"] = "percent"
         elif c["setting"] == "setpoint":
             s["setpoint"] = c["value"]
+            if c["method"] == at4.KEEP:
+                s["method"] = "temperature"
         elif c["setting"] in ("inc", "dec"):
             d = 1 if c["setting"] == "inc" else -1
             if s["method"] == "temperature":
